@@ -52,8 +52,9 @@ ASSUMPTIONS = [
     "block numbering after mirror: kept or bottom/top swapped are both accepted (handedness of the result is C11's "
     "business); return values of the methods are not used",
     "a default origin in the middle of a transform([...]) list is the image of the center read before the call under "
-    "the earlier elements (centers are means or fixed points of the entity); joints (center = a top-face corner, which "
-    "changes with mirror) get such steps in a call of their own, with the center read just before",
+    "the earlier elements (centers are means or fixed points of the entity); joints and Hemisphere (center = a corner "
+    "of a particular face, which changes when a mirror swaps bottom and top) get such steps in a call of their own, with "
+    "the center read just before",
     "generated Angle edges have their axis perpendicular to the chord (a rotation about an axis, as Revolve makes them); "
     "generated 3-point arcs keep the third point within 0.3..0.7 of the chord (sagitta 0.08..0.6 chord)",
     "AnalyticCurve with a user function is excluded (the library documents that it cannot be transformed); shear is "
